@@ -70,6 +70,16 @@ Proof.
   repeat (apply Forall_cons; [apply num_safe; repeat constructor|]). constructor.
 Qed.
 
+Lemma ends_nl_app a b : ends_nl b -> ends_nl (a ++ b).
+Proof. intros [p ->]. exists (a ++ p). rewrite app_assoc. reflexivity. Qed.
+
+Lemma summary_line_ends e w n : ends_nl (summary_line e w n).
+Proof.
+  unfold summary_line. destruct (negb (e =? 0) || negb (w =? 0)).
+  - unfold summary_counts. apply ends_nl_app. exists [32; 102; 111; 117; 110; 100; 46]. reflexivity.
+  - exists [76; 111; 111; 107; 115; 32; 102; 105; 110; 101; 46]. reflexivity.
+Qed.
+
 (* ---------- output safety ---------- *)
 
 Definition safe_w (w : swriter) : Prop := safe (sw_out w) /\ safe (sw_line w).
@@ -97,17 +107,28 @@ Proof.
   destruct lv; (split; [|exact He]); cbn; apply sw_write_safe; try assumption; apply escape_printable_safe.
 Qed.
 
+Lemma safe_l_out_write l s : safe s -> safe_l l -> safe_l (out_write l s).
+Proof. intros Hs [Ho He]. split; [|exact He]. cbn. apply sw_write_safe; assumption. Qed.
+
+Lemma safe_l_fold_write ws l : Forall safe ws -> safe_l l -> safe_l (fold_left out_write ws l).
+Proof.
+  intro H. revert l. induction H as [|w ws Hw Hws IH]; intros l Hl; simpl; [assumption|].
+  apply IH, safe_l_out_write; assumption.
+Qed.
+
 Theorem logger_output_safe o evs :
   safe (sw_out (l_out (log_run o evs))) /\ safe (sw_out (l_err (log_run o evs))).
 Proof.
   assert (safe_l (log_run o evs)) as [[H1 _] [H2 _]]; [|split; assumption].
-  apply (inv_run safe_l); try (intros l v H; exact H).
-  - intros l s Hs [Ho He]. split; [|exact He]. cbn. apply sw_write_safe; assumption.
+  apply (inv_run safe_l True); try (intros l v H; exact H).
+  - intros l ws w Hws Hw _ Hl. apply safe_l_out_write; [assumption|]. apply safe_l_fold_write; assumption.
   - intros l [Ho He]. unfold out_separate. pose proof (sw_separate_safe _ Ho) as H.
     destruct (sw_separate (l_out l)) as [w bad]. split; [exact H|exact He].
   - intros l s Hs [Ho He]. split; [exact Ho|]. cbn. apply sw_write_safe; assumption.
   - intros. apply safe_l_logf. assumption.
   - apply summary_line_safe.
+  - apply summary_line_ends.
+  - left. exact I.
   - repeat split; apply safe_nil.
 Qed.
 
@@ -133,14 +154,19 @@ Proof.
     rewrite !cnt_snoc; cbn [tuple_level fst level_eqb]; repeat split; lia.
 Qed.
 
+Lemma counts_ok_fold_write ws l : counts_ok l -> counts_ok (fold_left out_write ws l).
+Proof. revert l. induction ws as [|w ws IH]; intros l Hl; simpl; [assumption|]. apply IH. exact Hl. Qed.
+
 Lemma counts_ok_run o evs : counts_ok (log_run o evs).
 Proof.
-  apply (inv_run counts_ok); try (intros l v H; exact H).
-  - intros l s _ H. exact H.
+  apply (inv_run counts_ok True); try (intros l v H; exact H).
+  - intros l ws w _ _ _ Hl. apply (counts_ok_fold_write ws l) in Hl. exact Hl.
   - intros l H. unfold out_separate. destruct (sw_separate (l_out l)). exact H.
   - intros l s _ H. exact H.
   - intros. apply counts_ok_logf. assumption.
   - apply summary_line_safe.
+  - apply summary_line_ends.
+  - left. exact I.
   - repeat split.
 Qed.
 
@@ -190,3 +216,57 @@ Proof.
   cbv zeta. destruct (counts_exact o evs) as (He & Hw & _). unfold exit_status. rewrite He, Hw.
   destruct werror, (cnt LWarn _ =? 0), (cnt LError _ =? 0); reflexivity.
 Qed.
+
+(* ---------- no panic ---------- *)
+
+(* between events the writer is never in the middle of a line, so the assertion in
+   SeparatorWriter.Separate holds; with well-formed events the two index expressions
+   are in range *)
+Definition ok (l : logger) : Prop := l_panicked l = false /\ sw_state (l_out l) <> 1.
+
+Lemma sw_write_app w a b : sw_write w (a ++ b) = sw_write (sw_write w a) b.
+Proof. unfold sw_write. apply fold_left_app. Qed.
+
+Lemma sw_write_nl_state w s : ends_nl s -> sw_state (sw_write w s) <> 1.
+Proof.
+  intros [p ->]. rewrite sw_write_app.
+  change (sw_write (sw_write w p) [10]) with (sw_write_byte (sw_write w p) 10).
+  unfold sw_write_byte. rewrite N.eqb_refl. cbn [sw_state].
+  destruct (sw_state (sw_write w p) =? 1); discriminate.
+Qed.
+
+Lemma panicked_fold_write ws l : l_panicked (fold_left out_write ws l) = l_panicked l.
+Proof. revert l. induction ws as [|w ws IH]; intro l; simpl; [reflexivity|]. rewrite IH. reflexivity. Qed.
+
+Lemma format_diag_ends o lv f n m : ends_nl (format_diag o lv f n m).
+Proof. unfold format_diag. destruct (lo_gcc o); repeat apply ends_nl_app; exists []; reflexivity. Qed.
+
+Lemma ok_logf o l lv f n m : ok l -> ok (logf o l lv f n m).
+Proof.
+  intros [Hp Hs]. unfold logf. destruct (l_suppress_diag l); [split; assumption|].
+  destruct lv; (split; [exact Hp|]); cbn; apply sw_write_nl_state, escape_ends_nl, format_diag_ends.
+Qed.
+
+Lemma ok_run o evs : Forall wf_event evs -> ok (log_run o evs).
+Proof.
+  intro Hwf. apply (inv_run ok False); try (intros l v H; exact H).
+  - intros l [].
+  - intros l ws w _ _ Hw [Hp Hs]. split.
+    + cbn. rewrite panicked_fold_write. exact Hp.
+    + cbn. apply sw_write_nl_state. assumption.
+  - intros l [Hp Hs]. unfold out_separate, sw_separate. cbn.
+    split.
+    + rewrite Hp. cbn. apply N.eqb_neq. assumption.
+    + destruct (sw_state (l_out l) <? 2) eqn:E; cbn; [discriminate|assumption].
+  - intros l s _ H. exact H.
+  - intros. apply ok_logf. assumption.
+  - apply summary_line_safe.
+  - apply summary_line_ends.
+  - right. assumption.
+  - split; [reflexivity|discriminate].
+Qed.
+
+(* for well-formed events (line.fix.texts covers line.raw; ShowSummary gets argv[0]) no
+   panic site of logging.go is reached: not the assert in Separate, not an index *)
+Theorem logger_never_panics o evs : Forall wf_event evs -> l_panicked (log_run o evs) = false.
+Proof. intro H. apply (ok_run o evs H). Qed.
